@@ -53,39 +53,60 @@ def pyobj(d):
     if t == 'bytearray': return bytearray(d['v'])
     raise ValueError(t)
 
+def ctor_apply(case, args, kw, dense=False):
+    f = {'matrix': matrix, 'spmatrix': spmatrix, 'sparse': (matrix if dense else sparse), 'spdiag': spdiag}.get(case['routine'])
+    if f is not None: return f(*args, **kw)
+    a, b = args[0], (args[1] if len(args) > 1 else None)
+    op = case['routine']
+    if op == 'add': r = a + b
+    elif op == 'sub': r = a - b
+    elif op == 'mul': r = a * b
+    elif op == 'div': r = a / b
+    elif op == 'pow': r = a ** b
+    elif op == 'iadd': a += b; r = a
+    elif op == 'isub': a -= b; r = a
+    elif op == 'imul': a *= b; r = a
+    elif op == 'idiv': a /= b; r = a
+    elif op == 'neg': r = -a
+    elif op == 'pos': r = +a
+    elif op == 'abs': r = abs(a)
+    elif op == 'bool': r = bool(a)
+    elif op == 'len': r = len(a)
+    elif op == 'trans': r = a.trans() if rng_flag(case) else a.T
+    elif op == 'ctrans': r = a.ctrans() if rng_flag(case) else a.H
+    elif op == 'size': a.size = tuple(args[1]); r = a
+    elif op == 'V': a.V = b; r = a
+    elif op == 'real': r = a.real()
+    elif op == 'imag': r = a.imag()
+    elif op in ('exp', 'log', 'sqrt', 'sin', 'cos'):
+        import cvxopt
+        r = getattr(cvxopt, op)(a)
+    elif op in ('mulf', 'divf', 'maxf', 'minf'):
+        import cvxopt
+        r = getattr(cvxopt, op[:-1])(*args)
+    elif op == 'fromfile':
+        r = None
+    else: raise ValueError(op)
+    return r
+
+TWIN_OPS = {'add', 'sub', 'mul', 'div', 'iadd', 'isub', 'imul', 'idiv', 'neg', 'pos', 'abs', 'bool', 'trans', 'ctrans', 'size', 'real', 'imag', 'sparse', 'mulf', 'divf'}          # (len of a sparse matrix counts the stored entries: documented)
+
+def densify(o):
+    if isinstance(o, spmatrix): return matrix(o)
+    if isinstance(o, list): return [densify(x) for x in o]
+    if isinstance(o, tuple): return tuple(densify(x) for x in o)
+    return o
+
+def flat(o):
+    if isinstance(o, (matrix, spmatrix)): return ('m', tuple(o.size), [complex(v) for v in matrix(o)])
+    if isinstance(o, (bool, int, float, complex)): return ('n', (), [complex(o)])
+    return ('o', (), [])
+
 def ctor_case(case):
-    """constructors, block constructors, conversions and arithmetic with operands of any kind and shape"""
-    f = {'matrix': matrix, 'spmatrix': spmatrix, 'sparse': sparse, 'spdiag': spdiag}.get(case['routine'])
+    """constructors, block constructors, conversions and arithmetic with operands of any kind and shape; with `twin` the same operation on
+    the dense images of all sparse operands must give the same size and values"""
     args = [pyobj(a) for a in case['pos']]; kw = {k: pyobj(v) for k, v in case.get('kw', {}).items()}
-    if f is not None: r = f(*args, **kw)
-    else:
-        import operator
-        a, b = args[0], (args[1] if len(args) > 1 else None)
-        op = case['routine']
-        if op == 'add': r = a + b
-        elif op == 'sub': r = a - b
-        elif op == 'mul': r = a * b
-        elif op == 'div': r = a / b
-        elif op == 'pow': r = a ** b
-        elif op == 'iadd': a += b; r = a
-        elif op == 'imul': a *= b; r = a
-        elif op == 'neg': r = -a
-        elif op == 'abs': r = abs(a)
-        elif op == 'trans': r = a.trans() if rng_flag(case) else a.T
-        elif op == 'ctrans': r = a.ctrans()
-        elif op == 'size': a.size = tuple(args[1]); r = a
-        elif op == 'V': a.V = b; r = a
-        elif op == 'real': r = a.real()
-        elif op == 'imag': r = a.imag()
-        elif op in ('exp', 'log', 'sqrt', 'sin', 'cos'):
-            import cvxopt
-            r = getattr(cvxopt, op)(a)
-        elif op in ('mulf', 'divf', 'maxf', 'minf'):
-            import cvxopt
-            r = getattr(cvxopt, op[:-1])(*args)
-        elif op == 'fromfile':
-            r = None
-        else: raise ValueError(op)
+    r = ctor_apply(case, args, kw)
     for o in (r if isinstance(r, (list, tuple)) else [r]):
         if isinstance(o, spmatrix):
             cp, ri, vv = o.CCS; cp, ri = list(cp), list(ri); m_, n_ = o.size
@@ -94,6 +115,16 @@ def ctor_case(case):
             if not okc: return 'ccs-invalid'
             list(matrix(o))
         elif hasattr(o, 'size'): list(o)
+    if case.get('twin') and case['routine'] in TWIN_OPS:
+        args2 = [densify(pyobj(a)) for a in case['pos']]; kw2 = {k: densify(pyobj(v)) for k, v in case.get('kw', {}).items()}
+        if not any(isinstance(x, spmatrix) for x in [pyobj(a) for a in case['pos']]) and case['routine'] != 'sparse': return 'ok'
+        if case['routine'] == 'sparse' and args2 and args2[0] == []: return 'ok'          # sparse([]) is 0 x 0, matrix([]) is 0 x 1
+        try: r2 = ctor_apply(case, args2, kw2, dense=True)
+        except Exception: return 'ok'
+        f1, f2 = flat(r), flat(r2)
+        if f1[0] != f2[0] or f1[1] != f2[1] or len(f1[2]) != len(f2[2]): return 'twin-differs'
+        for x, y in zip(f1[2], f2[2]):
+            if abs(x - y) > 1e-9 * (1 + abs(x) + abs(y)): return 'twin-differs'
     return 'ok'
 def rng_flag(case): return case['id'] % 2 == 0
 
